@@ -111,3 +111,32 @@ func Special(s string) bool {
 	}
 	return false
 }
+
+// TableFacts checks, over every code point, the facts of Go's unicode tables that the Coq theorems take as hypotheses
+// on their table arguments (the per-case tables only list the runes of the case, so they cannot show them): ToLower is
+// idempotent and fixes '_', a newline is not printable, NUL, '.' and '@' are neither letter nor number, and ToLower
+// never yields a quote or a parenthesis.  Returns what does not hold.
+func TableFacts() []string {
+	var bad []string
+	for c := rune(0); c <= unicode.MaxRune; c++ {
+		l := unicode.ToLower(c)
+		if unicode.ToLower(l) != l {
+			bad = append(bad, fmt.Sprintf("ToLower is not idempotent on U+%04X", c))
+		}
+		if l == '"' || l == '(' || l == ')' || (l == 0 && c != 0) {
+			bad = append(bad, fmt.Sprintf("ToLower(U+%04X) is U+%04X", c, l))
+		}
+	}
+	if unicode.ToLower('_') != '_' {
+		bad = append(bad, "ToLower('_') is not '_'")
+	}
+	if unicode.IsPrint('\n') {
+		bad = append(bad, "IsPrint('\\n')")
+	}
+	for _, c := range []rune{0, '.', '@'} {
+		if IsLN(c) {
+			bad = append(bad, fmt.Sprintf("U+%04X is a letter or number", c))
+		}
+	}
+	return bad
+}
